@@ -97,6 +97,10 @@ def ticks_record(d0, d1, m, pre=None, default=False):
         if pre:
             rec["pre"] = list(pre)
         with guard.limit(60):
+            first = s.ticks() if default and m == 10 else s.ticks(m)
+            if isinstance(first, list) and first:
+                first.reverse()             # the caller edits the list it was given and asks again: the SECOND answer is observed
+                first.pop()
             rec["ticks"] = [proj(t) for t in (s.ticks() if default and m == 10 else s.ticks(m))]
     except OutOfScope:
         return None
